@@ -132,6 +132,25 @@ func runC08(c *Ctx) {
 		namePool = nil
 		c08Msg(c, "limit16384", m, true)
 	}
+	// messages whose uncompressed form is longer than 65535 octets while the compressed form fits: Pack has room
+	for _, n := range []int{1190, 1195, 1250, 2500} {
+		m := new(dns.Msg)
+		m.SetQuestion("a-rather-long-owner-name-shared-by-all-records.example.org.", dns.TypeA)
+		for i := 0; i < n; i++ {
+			m.Answer = append(m.Answer, &dns.A{Hdr: dns.RR_Header{Name: "a-rather-long-owner-name-shared-by-all-records.example.org.", Rrtype: dns.TypeA, Class: 1, Ttl: 1},
+				A: []byte{10, 0, byte(i >> 8), byte(i)}})
+		}
+		m.Compress = true
+		l := m.Len()
+		b, err := m.Pack()
+		in := fmt.Sprintf("%d A records with one owner, compress=true, Len=%d", n, l)
+		if l <= 65535 {
+			c.Pred("large-compressible", "pack-has-room", in, err == nil, fmt.Sprint(err), "nil", true)
+			if err == nil {
+				c.Pred("large-compressible", "len-ge-pack", in, l >= len(b), fmt.Sprint(l), fmt.Sprint(">= ", len(b)), true)
+			}
+		}
+	}
 	// hand-built records: the typed zero value of every registered type (nil slices, empty strings, nil addresses —
 	// shapes that neither NewRR nor Unpack ever produce), alone and several in one message
 	var codes []int
